@@ -371,6 +371,11 @@ def d4_failed_status(ctx, rm: REModel):
 
 def run(ctx):
     rm = REModel(ctx.repo)
+    # a status that fails while the plan is still running reaches the plan (and so the exit status): failures are pardoned only at teardown
+    # (seeds C02-b, C02-c)
+    from . import c12
+
+    q.relabelled(ctx, "C12.D5", "C02.D3", c12.d5_pardon_only_when_call_is_over, rm)
     ctx.explanation = (
         "Decided: D1 composition of the tables read from source against the oracle written from the statement (outer except "
         "ladder of _run with shadowing resolved through the class hierarchy; exception_map; request -> state -> stored "
